@@ -76,8 +76,11 @@ func (t *ServerTransport) Handshake(handshakePacket *parser.Packet, w http.Respo
 	if err != nil {
 		return
 	}
-	if t.readLimit != 0 {
+	if t.readLimit > 0 {
 		t.conn.SetReadLimit(t.readLimit)
+	} else {
+		// The limit is disabled. Without this, the default limit of the library (32768 bytes) would apply.
+		t.conn.SetReadLimit(-1)
 	}
 	// sid is only for webtransport
 	return "", t.writeHandshakePacket(handshakePacket)
